@@ -1220,6 +1220,20 @@ class PeekableAdaptor(IterVal):
         return x, PeekableAdaptor(ni, None)
 
 
+def order_for(I, mv):
+    """Iteration order of a map value: the run's policy for hash maps, key order for B-tree maps."""
+    n = len(mv.entries)
+    if mv.kind in ('BTreeMap', 'BTreeSet'):
+        idx = []
+        for i in range(n):
+            k = len(idx)
+            while k > 0 and compare_values(I, mv.entries[idx[k - 1]].f[0], mv.entries[i].f[0]).vname == 'Greater':
+                k -= 1
+            idx.insert(k, i)
+        return tuple(idx)
+    return map_order(I, n)
+
+
 def map_order(I, n):
     if I.map_order is not None:
         o = tuple(I.map_order(n))
@@ -1235,8 +1249,8 @@ def to_iter(I, x):
     if isinstance(x, VecVal):
         return ListIter(x.items)
     if isinstance(x, MapVal):
-        mode = 'set_owned' if x.kind == 'HashSet' else 'owned'
-        return MapIter(Ref(Cell(x), ()), map_order(I, len(x.entries)), 0, mode)
+        mode = 'set_owned' if x.kind in ('HashSet', 'BTreeSet') else 'owned'
+        return MapIter(Ref(Cell(x), ()), order_for(I, x), 0, mode)
     if isinstance(x, Enum) and x.name == 'Option':
         return ListIter(x.f)
     if isinstance(x, Ref):
@@ -1248,8 +1262,8 @@ def to_iter(I, x):
         if isinstance(v, VecVal):
             return SliceIter(r, 0, len(v.items))
         if isinstance(v, MapVal):
-            mode = 'set' if v.kind == 'HashSet' else 'ref'
-            return MapIter(r, map_order(I, len(v.entries)), 0, mode)
+            mode = 'set' if v.kind in ('HashSet', 'BTreeSet') else 'ref'
+            return MapIter(r, order_for(I, v), 0, mode)
         if isinstance(v, IterVal):
             return RefIter(r)
         if isinstance(v, Enum) and v.name == 'Option':
@@ -1331,23 +1345,23 @@ def _into_iter(I, a, ci, dt):
 @reg('HashMap::keys')
 def _map_keys(I, a, ci, dt):
     r = vec_ref(I, a[0])
-    return MapIter(r, map_order(I, len(I.load(r).entries)), 0, 'keys')
+    return MapIter(r, order_for(I, I.load(r)), 0, 'keys')
 
 
 @reg('HashMap::values', 'HashMap::values_mut')
 def _map_values(I, a, ci, dt):
     r = vec_ref(I, a[0])
-    return MapIter(r, map_order(I, len(I.load(r).entries)), 0, 'values')
+    return MapIter(r, order_for(I, I.load(r)), 0, 'values')
 
 
 @reg('HashMap::into_keys')
 def _map_into_keys(I, a, ci, dt):
-    return MapIter(Ref(Cell(a[0]), ()), map_order(I, len(a[0].entries)), 0, 'into_keys')
+    return MapIter(Ref(Cell(a[0]), ()), order_for(I, a[0]), 0, 'into_keys')
 
 
 @reg('HashMap::into_values')
 def _map_into_values(I, a, ci, dt):
-    return MapIter(Ref(Cell(a[0]), ()), map_order(I, len(a[0].entries)), 0, 'into_values')
+    return MapIter(Ref(Cell(a[0]), ()), order_for(I, a[0]), 0, 'into_values')
 
 
 @reg('Iterator::next')
@@ -1591,12 +1605,12 @@ def _collect(I, a, ci, dt):
         target = ci.self_ty or dt or ''
     head = target.split('<')[0]
     if 'HashMap' in head or 'BTreeMap' in head:
-        c = Cell(MapVal((), 'HashMap'))
+        c = Cell(MapVal((), 'BTreeMap' if 'BTreeMap' in head else 'HashMap'))
         for kv in items:
             map_insert(I, Ref(c, ()), kv.f[0], kv.f[1])
         return c.v
     if 'HashSet' in head or 'BTreeSet' in head:
-        c = Cell(MapVal((), 'HashSet'))
+        c = Cell(MapVal((), 'BTreeSet' if 'BTreeSet' in head else 'HashSet'))
         for k in items:
             map_insert(I, Ref(c, ()), k, UNIT)
         return c.v
@@ -1669,12 +1683,12 @@ def map_insert(I, ref, k, v):
 
 @reg('HashMap::new', 'HashMap::with_capacity', 'BTreeMap::new')
 def _map_new(I, a, ci, dt):
-    return MapVal((), 'HashMap')
+    return MapVal((), 'BTreeMap' if (ci.self_ty or '').startswith('BTree') else 'HashMap')
 
 
 @reg('HashSet::new', 'HashSet::with_capacity', 'BTreeSet::new')
 def _set_new(I, a, ci, dt):
-    return MapVal((), 'HashSet')
+    return MapVal((), 'BTreeSet' if (ci.self_ty or '').startswith('BTree') else 'HashSet')
 
 
 @reg('HashMap::insert')
